@@ -11,7 +11,47 @@ pub open spec fn raw_wf(raw: IMap<Seq<u8>, Seq<u8>>) -> bool {
     &&& forall|a: Address| (#[trigger] raw[k_count(a)]).len() > 0 ==> de_u64(raw[k_count(a)]) is Some
 }
 impl<C: ContentAddrStore> View for CoinMapping<C> { type V = CoinsView; open spec fn view(&self) -> CoinsView { raw_view(self.inner@) } }
-impl<C: ContentAddrStore> CoinMapping<C> { pub open spec fn wf(&self) -> bool { raw_wf(self.inner@) } }
+impl<C: ContentAddrStore> CoinMapping<C> { pub open spec fn wf(&self) -> bool { raw_wf(self.inner@) }
+    pub open spec fn only_coins(&self) -> bool { raw_only_coins(self.inner@) } }
 /// A-PHYS (assumption): a real tree holds fewer than 2^63 entries, so the set of coins it stores is finite and small.
 pub axiom fn axiom_tree_fits<C: ContentAddrStore>(t: &novasmt::Tree<C>)
     ensures raw_view(t@).coins.dom().finite(), raw_view(t@).coins.dom().len() < 0x8000_0000_0000_0000;
+/// pre-TIP-906 coin tree: every non-empty entry is a coin entry (no count entries yet, nothing foreign)
+pub open spec fn raw_only_coins(raw: IMap<Seq<u8>, Seq<u8>>) -> bool { forall|k: Seq<u8>| #[trigger] raw[k].len() > 0 ==> is_coin_key(k) }
+pub open spec fn is_coin_key(k: Seq<u8>) -> bool { exists|id: CoinID| k_coin(id) == k }
+pub open spec fn id_of_key(k: Seq<u8>) -> CoinID { choose|id: CoinID| k_coin(id) == k }
+/// the coins among the first n listed entries
+pub open spec fn seen_upto(es: Seq<([u8; 32], Vec<u8>)>, n: int) -> IMap<CoinID, CoinDataHeight> {
+    IMap::new(|id: CoinID| exists|i: int| 0 <= i < n && (#[trigger] es[i]).0@ == k_coin(id), |id: CoinID| de_cdh(es[choose|i: int| 0 <= i < n && (#[trigger] es[i]).0@ == k_coin(id)].1@).unwrap())
+}
+pub proof fn lemma_seen_step(es: Seq<([u8; 32], Vec<u8>)>, n: int)
+    requires 0 <= n < es.len(), forall|i: int, j: int| 0 <= i < j < es.len() ==> (#[trigger] es[i]).0@ != (#[trigger] es[j]).0@, is_coin_key(es[n].0@)
+    ensures !seen_upto(es, n).contains_key(id_of_key(es[n].0@)), seen_upto(es, n + 1) =~= seen_upto(es, n).insert(id_of_key(es[n].0@), de_cdh(es[n].1@).unwrap())
+{
+    broadcast use axiom_coin_key_inj;
+    let id0 = id_of_key(es[n].0@);
+    assert(k_coin(id0) == es[n].0@);
+    if seen_upto(es, n).contains_key(id0) { let i = choose|i: int| 0 <= i < n && (#[trigger] es[i]).0@ == k_coin(id0); assert(es[i].0@ != es[n].0@); }
+    let a = seen_upto(es, n + 1); let b = seen_upto(es, n).insert(id0, de_cdh(es[n].1@).unwrap());
+    assert forall|id: CoinID| a.contains_key(id) <==> b.contains_key(id) by {
+        if a.contains_key(id) { let i = choose|i: int| 0 <= i < n + 1 && (#[trigger] es[i]).0@ == k_coin(id); if i < n { assert(seen_upto(es, n).contains_key(id)); } else { assert(k_coin(id) == k_coin(id0)); } }
+        if seen_upto(es, n).contains_key(id) { let i = choose|i: int| 0 <= i < n && (#[trigger] es[i]).0@ == k_coin(id); assert(0 <= i < n + 1 && es[i].0@ == k_coin(id)); }
+        if id == id0 { assert(0 <= n < n + 1 && es[n].0@ == k_coin(id)); }
+    }
+    assert forall|id: CoinID| a.contains_key(id) implies a[id] == b[id] by {
+        let i = choose|i: int| 0 <= i < n + 1 && (#[trigger] es[i]).0@ == k_coin(id);
+        if id == id0 { if i != n { assert(es[i].0@ != es[n].0@); } }
+        else { assert(i < n) by { if i == n { assert(k_coin(id) == k_coin(id0)); } }
+            let j = choose|j: int| 0 <= j < n && (#[trigger] es[j]).0@ == k_coin(id); if i != j { if i < j { assert(es[i].0@ != es[j].0@); } else { assert(es[j].0@ != es[i].0@); } } }
+    }
+}
+pub proof fn lemma_seen_finite(es: Seq<([u8; 32], Vec<u8>)>, n: int)
+    requires 0 <= n <= es.len(), forall|i: int, j: int| 0 <= i < j < es.len() ==> (#[trigger] es[i]).0@ != (#[trigger] es[j]).0@, forall|i: int| 0 <= i < es.len() ==> is_coin_key((#[trigger] es[i]).0@)
+    ensures seen_upto(es, n).dom().finite(), seen_upto(es, n).dom().len() == n
+    decreases n
+{
+    if n == 0 { assert(seen_upto(es, 0).dom() =~= ISet::<CoinID>::empty()); } else {
+        lemma_seen_finite(es, n - 1); assert(is_coin_key(es[n - 1].0@)); lemma_seen_step(es, n - 1);
+        assert(seen_upto(es, n).dom() =~= seen_upto(es, n - 1).dom().insert(id_of_key(es[n - 1].0@)));
+    }
+}
